@@ -366,4 +366,64 @@ def str2timedelta (s : List Char) : Option Int :=
   | none => none
 
 
+/-! ### SQLite column affinity: what happens to a TEXT value bound to a column of a given declared type -/
+
+inductive Affinity where
+  | integer | text | blob | real | numeric
+  deriving Repr, DecidableEq
+
+def isPrefixC : List Char → List Char → Bool
+  | [], _ => true
+  | _ :: _, [] => false
+  | a :: p, b :: s => a == b && isPrefixC p s
+
+def containsSub (sub : List Char) : List Char → Bool
+  | [] => sub.isEmpty
+  | c :: s => isPrefixC sub (c :: s) || containsSub sub s
+
+/-- SQLite's rule (https://sqlite.org/datatype3.html §3.1) on the upper-cased declared type -/
+def affinityOf (decl : List Char) : Affinity :=
+  let d := decl.map Char.toUpper
+  if containsSub "INT".toList d then .integer
+  else if containsSub "CHAR".toList d || containsSub "CLOB".toList d || containsSub "TEXT".toList d then .text
+  else if containsSub "BLOB".toList d || d.isEmpty then .blob
+  else if containsSub "REAL".toList d || containsSub "FLOA".toList d || containsSub "DOUB".toList d then .real
+  else .numeric
+
+def isSpaceSql (c : Char) : Bool := c == ' ' || c == '\t' || c == '\n' || c == '\x0b' || c == '\x0c' || c == '\r'
+
+def dropSign : List Char → List Char
+  | [] => []
+  | c :: r => if c == '+' || c == '-' then r else c :: r
+
+/-- the part after the mantissa: an optional exponent `e[+-]digits` (at least one digit), then only spaces -/
+def expTailOk : List Char → Bool
+  | [] => true
+  | c :: r =>
+    if c == 'e' || c == 'E' then
+      let r1 := dropSign r
+      !(r1.takeWhile isDigitC).isEmpty && ((r1.dropWhile isDigitC).dropWhile isSpaceSql).isEmpty
+    else ((c :: r).dropWhile isSpaceSql).isEmpty
+
+/-- is the whole text a well-formed integer or real literal (what makes SQLite convert it in a numeric column) -/
+def looksNumeric (s : List Char) : Bool :=
+  let s2 := dropSign (s.dropWhile isSpaceSql)
+  let ip := s2.takeWhile isDigitC
+  let r1 := s2.dropWhile isDigitC
+  match r1 with
+  | '.' :: r =>
+    let fp := r.takeWhile isDigitC
+    if ip.isEmpty && fp.isEmpty then false else expTailOk (r.dropWhile isDigitC)
+  | r => if ip.isEmpty then false else expTailOk r
+
+/-- storage class of a bound TEXT value: `true` = stays TEXT, `false` = converted to INTEGER/REAL -/
+def textStaysText (a : Affinity) (s : List Char) : Bool :=
+  match a with
+  | .text => true
+  | .blob => true
+  | .integer => !looksNumeric s
+  | .real => !looksNumeric s
+  | .numeric => !looksNumeric s
+
+
 end PonyVerif.Model.Store
